@@ -8,7 +8,7 @@ import (
 	"strconv"
 
 	"verif/sim/core"
-	_ "verif/sim/props"
+	"verif/sim/props"
 )
 
 func seedEnv() uint64 {
@@ -62,6 +62,8 @@ func main() {
 		n := fs.Int64("n", 200, "")
 		fs.Parse(os.Args[2:])
 		os.Exit(core.Fingerprints(*prop, *tier, seedEnv(), *n))
+	case "tenant-exec":
+		os.Exit(props.TenantExecMain())
 	case "props":
 		for _, p := range core.AllProps() {
 			fmt.Println(p, core.EngineFor(p).Name())
